@@ -5,6 +5,7 @@ import (
 	"fmt"
 	"os"
 	"strings"
+	"time"
 
 	mlog "github.com/google/martian/v3/log"
 	"github.com/google/martian/v3/verifhook"
@@ -82,10 +83,29 @@ func Main(prop string) {
 		if strings.HasPrefix(batch, "race-") {
 			n = z.PerRaceBatch
 		}
+		var slow time.Duration
 		for i := 0; i < n; i++ {
 			c := Case{Kind: "session", Stream: strings.ToLower(prop) + "-" + batch, Idx: i, Pf: z.Pf, Hook: i%3 == 1}
 			r.Case(c)
+			v0, t0 := r.Violations(), time.Now()
 			RunCase(r, c, i == 0 && batch == "s-0")
+			if r.Violations() > v0 {
+				// liveness violations are decided by quiescence and take ~10 s each; once a batch has
+				// spent four minutes in violating sessions the rest of its list is skipped (the run is
+				// failing anyway) so that a badly broken tree does not hit the batch watchdog
+				if slow += time.Since(t0); slow > 4*time.Minute {
+					r.Count("cases_skipped_after_slow_violations", int64(n-i-1))
+					break
+				}
+			}
+		}
+		if batch == "s-0" {
+			// fixed hand-written sessions (regressions)
+			for _, name := range map[string][]string{"C08": {"control", "priority-behind-negative-window"}, "C09": {"max-frame-size-lowered-with-queued-data"}}[prop] {
+				c := Case{Kind: "session", Stream: strings.ToLower(prop) + "-probe", Pf: z.Pf, Probe: name}
+				r.Case(c)
+				RunCase(r, c, false)
+			}
 		}
 	}
 	p.Replay = func(r *vh.Run, raw json.RawMessage) {
@@ -100,6 +120,8 @@ func Main(prop string) {
 	}
 	vh.Main(p)
 }
+
+var xnetProbe = map[string]bool{"push-promise-continuation": true, "headers-empty-first-fragment": true, "two-table-size-updates": true}
 
 func bucketN(n int) string {
 	switch {
@@ -176,7 +198,7 @@ func RunCase(r *vh.Run, c Case, sample bool) {
 	for _, f := range s.Findings {
 		w := map[string]interface{}{"detail": f.Witness, "plan": s.Plan.Describe(40)}
 		sig := c.Pf.Prop + ":" + f.Clause + ":" + f.Class
-		if c.Probe != "" {
+		if c.Probe != "" && xnetProbe[c.Probe] {
 			sig = c.Pf.Prop + ":x-net-limit:" + c.Probe
 			w["observed_as"] = f.Clause + ":" + f.Class
 		}
